@@ -27,6 +27,10 @@ def plan_runs(prop, scenario, flags, ts, cfg):
     if scenario == "two-thresholds":
         b2 = dict(base, t=ts[1], name="t2")
         return [dict(base, name="t1"), b2]
+    if scenario == "history":        # call 1 at t1, call 2 at t2 on the same Shaper, and a fresh Shaper at t2
+        return [dict(base, name="first-call", keep=True), dict(base, t=ts[1], name="second-call-same-shaper", reuse=0), dict(base, t=ts[1], name="fresh-shaper")]
+    if scenario == "repeat":         # the same call twice on one Shaper
+        return [dict(base, name="first-call", keep=True), dict(base, name="second-call-same-shaper", reuse=0)]
     if scenario == "inverse3":
         f_inv = dict(flags, inverse_paths=True)
         f_dir = dict(flags, inverse_paths=False)
@@ -75,7 +79,7 @@ def run_obligation(res, prop, st_name, N, findings, scenario="single", cfg=None)
     cfg = dict(cfg or {})
     st = _structure(st_name)
     fixed = dict(cfg.get("fixed_flags", {}))
-    n_thr = 2 if scenario == "two-thresholds" else 1
+    n_thr = 2 if scenario in ("two-thresholds", "history") else 1
     fixed_thr = cfg.get("fixed_threshold")
     active = {f["id"] for f in findings if f.get("status") != "fixed" and f.get("family") == "stage"}
     ex = Explorer(max_paths=cfg.get("max_paths", 60000), path_ops=10 ** 7, path_wall_s=120)
@@ -99,7 +103,7 @@ def run_obligation(res, prop, st_name, N, findings, scenario="single", cfg=None)
             ts = [fixed_thr] * n_thr
         else:
             ts = [SymReal(ex.fresh_real("t%d" % i, 0, 1)) for i in range(n_thr)]
-            if n_thr == 2:
+            if scenario == "two-thresholds":
                 ex.add(ts[0].e <= ts[1].e)
         runs = plan_runs(prop, scenario, flags, ts, cfg)
         syms = {}
@@ -112,8 +116,12 @@ def run_obligation(res, prop, st_name, N, findings, scenario="single", cfg=None)
                 extra = dict(r["extra"])
                 if shapemap:
                     extra["shape_map_raw"] = R.shapemap_text(st["rows"], None, representative=True)
+                kept = [] if r.get("keep") else None
+                reuse = runs[r["reuse"]]["shaper"] if r.get("reuse") is not None else None
                 r["text"], r["shacl"] = T.run_real_stage(r["sym"]["profile"], r["sym"]["counts"], r["flags"], r["t"], r["report_mode"], r["decimals"],
-                                                         r["or_flags"], r["want_shacl"], extra)
+                                                         r["or_flags"], r["want_shacl"], extra, reuse=reuse, keep=kept)
+                if kept:
+                    r["shaper"] = kept[0]
                 r["tag"], r["err"] = "OK", None
             except HarnessError:
                 raise
@@ -194,9 +202,11 @@ def run_obligation(res, prop, st_name, N, findings, scenario="single", cfg=None)
             if shapemap:
                 extra["shape_map_raw"] = R.shapemap_text(st["rows"], vals)
             try:
+                kept = [] if r.get("keep") else None
+                reuse = reals[r["reuse"]].get("shaper") if r.get("reuse") is not None else None
                 with shims.real_code():
-                    rt, rs = T.run_real_pipeline(doc, r["flags"], thr, r["report_mode"], r["decimals"], r["or_flags"], r["want_shacl"], extra)
-                reals.append(dict(tag="OK", text=rt, shacl=rs, thr=thr, run=r))
+                    rt, rs = T.run_real_pipeline(doc, r["flags"], thr, r["report_mode"], r["decimals"], r["or_flags"], r["want_shacl"], extra, reuse=reuse, keep=kept)
+                reals.append(dict(tag="OK", text=rt, shacl=rs, thr=thr, run=r, shaper=kept[0] if kept else None))
             except Exception as e:  # noqa
                 reals.append(dict(tag="EXC", text=None, shacl=None, thr=thr, run=r, err=type(e).__name__))
         mismatch = None
@@ -268,11 +278,13 @@ def replay(args):
         if shapemap:
             extra["shape_map_raw"] = R.shapemap_text(st["rows"], args["values"])
         try:
-            rt, rs = T.run_real_pipeline(doc, r["flags"], r["t"], r["report_mode"], r["decimals"], r["or_flags"], r["want_shacl"], extra)
+            kept = [] if r.get("keep") else None
+            reuse = reals[r["reuse"]].get("shaper") if r.get("reuse") is not None else None
+            rt, rs = T.run_real_pipeline(doc, r["flags"], r["t"], r["report_mode"], r["decimals"], r["or_flags"], r["want_shacl"], extra, reuse=reuse, keep=kept)
         except Exception as e:  # noqa
             print("extraction raised %s: %s [run %s]\ndocument:\n%s" % (type(e).__name__, e, r["name"], doc))
             return True
-        reals.append(dict(tag="OK", text=rt, shacl=rs, thr=r["t"], run=r))
+        reals.append(dict(tag="OK", text=rt, shacl=rs, thr=r["t"], run=r, shaper=kept[0] if kept else None))
     problems = concrete_problems(args["prop"], args["scenario"], triples, reals, args["flags"], st["tags"], set(args.get("active", [])), cfg,
                                  R.shapemap_instances(st["rows"], args["values"]) if shapemap else None)
     if problems:
